@@ -305,7 +305,9 @@ Definition denote (d : doc) (n : bnv) : Prop :=
    (2) a section instancing nothing but primitives that it does not itself redefine: model names
        are distinct, and the reserved definitions logic-gate_N / generic-latch are only created by
        .names / .latch; a black-box section consists of its port lists and .blackbox;
-   (3) .latch has two, four or five operands; no statement line contains "#".
+   (3) .latch has two, four or five operands;
+   (4) in a section the .inputs lines come before the .outputs lines, those before the .clock lines, those
+       before the other statements (comments and blank lines anywhere).
    Nothing is asked of .conn any more: since the repair of merge_wires (the merged net keeps the cable and
    the name of the first operand, the other name stands for it from then on) the statements may come in any
    order, name a net any number of times, and no net name is special. *)
@@ -333,19 +335,31 @@ Definition body_ok (nm : str) (body : list stmt) : bool :=
   forallb (fun s => match s with SSub _ r _ => negb (reserved r) | _ => true end) body &&
   latch_arity_ok body.
 
-(* "#" starts a comment anywhere on a line; the reader only knows comment lines: a statement line
-   may not contain the character *)
-Definition no_inline_hash (d : doc) : bool :=
-  forallb (fun l => match l with
-                    | [] => true
-                    | t :: _ => str_eqb t k_hash || negb (existsb (fun u => existsb (N.eqb 35) u) l)
-                    end) d.
+(* the order of the port lines of a section the connectivity proof is carried out for: the .inputs lines,
+   then the .outputs lines, then the .clock lines, then the other statements; comment lines (and blank
+   lines, which give no statement) may stand anywhere between them.  The reader itself accepts the port lines
+   of the header in any order and number (cl_hdr); a port named in an .outputs line and in a later .inputs
+   line is the open finding C18-inout-outputs-first *)
+Fixpoint hdr_sorted (ph : nat) (ss : list stmt) : bool :=
+  match ss with
+  | [] => true
+  | SComment _ :: r => hdr_sorted ph r
+  | SModel _ :: r => hdr_sorted 0 r
+  | SInputs _ :: r => Nat.eqb ph 0 && hdr_sorted 0 r
+  | SOutputs _ :: r => Nat.leb ph 1 && hdr_sorted 1 r
+  | SClock _ :: r => Nat.leb ph 2 && hdr_sorted 2 r
+  | _ :: r => hdr_sorted 3 r
+  end.
 
+(* A document is what the tokenizer hands to the parser: since the repair of generate_tokens a word that
+   starts with "#" ends a statement line (the rest of the line is a comment and is not part of the
+   document), and "#text" at the start of a line is the comment line "# text"; a "#" inside a word is part
+   of the word.  The former condition "no statement line contains #" is gone. *)
 Definition supported (d : doc) : bool :=
   match classify d, grammar d with
   | Ok a, Some b =>
     stmts_eqb a b && well_nested false b && nodup_strs (model_names b) &&
-    forallb (fun nm => body_ok nm (body_of nm [] b)) (model_names b) && no_inline_hash d
+    forallb (fun nm => body_ok nm (body_of nm [] b)) (model_names b) && hdr_sorted 3 b
   | _, _ => false
   end.
 
@@ -624,7 +638,7 @@ Definition written_names (n : bnv) : list str :=
     filter (fun nm => negb (lib_eqb (m_lib (get_model nm ms)) LPrim)) (reach (S (length ms + total_insts ms)) ms [tr] [])
   end.
 
-Definition roundtrippable (n : bnv) : bool :=
+Definition roundtrippable0 (n : bnv) : bool :=
   match b_top n with
   | None => true
   | Some (_, tr) =>
@@ -638,6 +652,10 @@ Definition roundtrippable (n : bnv) : bool :=
                names_some m && rows_ok m && forallb (data_ok ms m) (written_insts m))
             (written_names n)
   end.
+
+(* ... and the written file is a document of the tokenizer: no name that is written as a word starts with
+   "#" (since the repair of generate_tokens such a word would begin a comment on re-reading) *)
+Definition roundtrippable (n : bnv) : bool := roundtrippable0 n && tokenized (emit n).
 
 (* the round trip on the fragment: NOT proved in general (checked case by case by [rt_check],
    whose verdict is proved sound, on every document the correspondence run generates) *)
